@@ -194,7 +194,8 @@ def run_check(ctx):
         if status != "ok":
             ctx.violation("%s.h with -c %s: %s" % (n, " ".join(o), detail[:600]),
                           dict(header=H[n], options=o, status=status, detail=detail,
-                               decls=open(os.path.join(hd, tag + "_decl.cxx")).read()))
+                               decls=open(os.path.join(hd, tag + "_decl.cxx")).read()),
+                          classes=classes_of(H[n], o))
         if nsig:
             ctx.sample(dict(header=n + ".h", backend="-c", options=list(o), signatures_compiled=nsig, verdict=status), limit=6)
     ctx.cov["evaluations"] += ncomp
@@ -215,6 +216,19 @@ def describe(raw, v):
     return "; ".join(out)[:800]
 
 
+# Input class of the known finding C11-fptrs-unrecorded-wrapper: a published function whose return type the C
+# back-end cannot represent (reference or pointer to an arithmetic type): code is generated for it with a void
+# return but no database entry is made.
+UNRECORDED = re.compile(r"^\s*(?:const\s+)?(?:unsigned\s+|signed\s+)?(?:int|float|double|bool|short|long)\s*[&*]\s*"
+                        r"(?:\w+|operator\s*\S+)\s*\(|operator\s+const\s+(?:int|float|double|bool|short|long)\s*\*", re.M)
+
+
+def classes_of(header_text, opts):
+    if ("-fptrs" in opts or "-unique-names" in opts) and UNRECORDED.search(header_text):
+        return ["C11-fptrs-unrecorded-wrapper"]
+    return []
+
+
 TABLE = re.compile(r"static void \*_in_fptrs\[\d+\] = \{(.*?)\};", re.S)
 UNIQ = re.compile(r"static InterrogateUniqueNameDef _in_unique_names\[\d+\] = \{(.*?)\n\};", re.S)
 
@@ -222,7 +236,9 @@ UNIQ = re.compile(r"static InterrogateUniqueNameDef _in_unique_names\[\d+\] = \{
 def compile_one(hd, tag, raw, inc):
     gen = os.path.join(hd, tag + ".cxx")
     src = open(gen).read()
-    base = subprocess.run(["g++", "-std=c++17", "-fsyntax-only", "-w"] + inc + [gen], cwd=hd, stdout=subprocess.PIPE,
+    # -fpermissive: without -fnames the generated file declares the wrappers extern and defines them static, which
+    # g++ only accepts permissively; whether generated code compiles is property C03, not this one
+    base = subprocess.run(["g++", "-std=c++17", "-fsyntax-only", "-w", "-fpermissive"] + inc + [gen], cwd=hd, stdout=subprocess.PIPE,
                           stderr=subprocess.STDOUT, text=True)
     if base.returncode != 0:
         return "gen-broken", base.stdout[-800:], 0
@@ -252,7 +268,7 @@ def compile_one(hd, tag, raw, inc):
     # -unique-names: {name, offset}: wrapper offset + 1 carries that unique name
     m = UNIQ.search(src)
     if m:
-        ents = re.findall(r'\{ "([^"]*)", (\d+) \}', m.group(1))
+        ents = re.findall(r'\{ "([^"]*)", (-?\d+) \}', m.group(1))
         byun = {wi: un for wi, name, ret, ps, un in sigs}
         for un, off in ents:
             if byun.get(int(off) + 1) != un:
@@ -263,7 +279,7 @@ def compile_one(hd, tag, raw, inc):
     decl = os.path.join(hd, tag + "_decl.cxx")
     open(decl, "w").write("\n".join(lines) + "\n")
     obj = os.path.join(hd, tag + "_decl.o")
-    r = subprocess.run(["g++", "-std=c++17", "-c", "-w", "-o", obj] + inc + [decl], cwd=hd, stdout=subprocess.PIPE,
+    r = subprocess.run(["g++", "-std=c++17", "-c", "-w", "-fpermissive", "-o", obj] + inc + [decl], cwd=hd, stdout=subprocess.PIPE,
                        stderr=subprocess.STDOUT, text=True)
     if r.returncode != 0:
         errs = [l for l in r.stdout.split("\n") if "error" in l]
